@@ -1,3 +1,4 @@
+import Secp.Proofs.GroupTies
 import Secp.Proofs.HashToScalar
 /-!
 # C09 — HashToScalar is RFC 9380 hash_to_field over the scalar field
@@ -16,6 +17,21 @@ open Spec Spec.Rfc9380
 theorem expander_is_rfc (H : Bytes → Bytes) (msg dst : Bytes) (len : Nat) (hd : dst ≠ []) (hl : (len + 31) / 32 ≤ 255) :
     Hand.Group.expandXMD H msg dst len = some (expandMessageXmd H msg dst len) := expandXMD_eq H msg dst len hd hl
 
+/-- **the expander regenerated from `xmd.go` on this run** (`GenXmd.expandXMD`: `checkDST`, `vetDSTXMD`, `i2osp2`, `hashAll`,
+the `xorSlices` index loop, the `for i := 2; i <= ell; i++` loop, the final re-slice, with every bounds check and the
+zero-length-DST panic as `none`) is `expand_message_xmd`: it does not panic and returns the RFC's bytes -/
+theorem expander_regenerated (H : Bytes → Bytes) (hH : HashOK H) (msg dst : Bytes) (len : Nat) (hd : dst ≠ [])
+    (hl : (len + 31) / 32 ≤ 255) :
+    GenXmd.expandXMD H msg dst len = some (expandMessageXmd H msg dst len) := by
+  rw [XmdTies.expandXMD_eq H hH.len msg dst len (by omega)]
+  exact expandXMD_eq H msg dst len hd hl
+
+/-- the regenerated expander panics (`none`) on an empty or nil DST -/
+theorem expander_regenerated_empty (H : Bytes → Bytes) (hH : HashOK H) (msg : Bytes) (len : Nat) (hl : len < 2^53) :
+    GenXmd.expandXMD H msg [] len = none := by
+  rw [XmdTies.expandXMD_eq H hH.len msg [] len hl]
+  exact expandXMD_empty H msg len
+
 /-- the 48-byte wide reduction returns the input integer modulo `n`, in canonical form, for all `2^384` inputs -/
 theorem wide_reduction (input : Bytes) (hb : IsBytes input) (hl : input.length = 48) :
     sOk (Hand.Fn.hashToFieldElement input) ∧ sVal (Hand.Fn.hashToFieldElement input) = ((os2ip input : Nat) : ZMod N) :=
@@ -29,6 +45,20 @@ theorem hashToScalar_spec (H : Bytes → Bytes) (hH : HashOK H) (msg dst : Bytes
 /-- an empty or nil DST panics instead of hashing -/
 theorem empty_dst_panics (H : Bytes → Bytes) (msg : Bytes) : Hand.Group.hashToScalar H msg [] = none :=
   hashToScalar_empty_dst H msg
+
+/-- **C09 for the `HashToScalar` regenerated from `group.go` on this run** (`GenGroup.hashToScalar`: the expander call with
+`L = 48`, the `[48]byte(uniform)` conversion, then the wide reduction as modelled in `Hand.Fn`) -/
+theorem hashToScalar_regenerated (H : Bytes → Bytes) (hH : HashOK H) (msg dst : Bytes) (hd : dst ≠ []) :
+    ∃ s, GenGroup.hashToScalar GroupTies.handHashOps H msg dst = some s ∧ sOk s ∧
+      (sVal s).val = Rfc9380.hashToScalar H msg dst := by
+  rw [GroupTies.hashToScalar_tie H hH]
+  exact _root_.hashToScalar_spec H hH msg dst hd
+
+/-- the regenerated `HashToScalar` panics on an empty or nil DST -/
+theorem hashToScalar_regenerated_empty (H : Bytes → Bytes) (hH : HashOK H) (msg : Bytes) :
+    GenGroup.hashToScalar GroupTies.handHashOps H msg [] = none := by
+  rw [GroupTies.hashToScalar_tie H hH]
+  exact hashToScalar_empty_dst H msg
 
 -- non-vacuity: a hash with 32-byte outputs exists
 example : HashOK (fun _ => List.replicate 32 7) := ⟨fun _ => by simp, fun _ x hx => by
